@@ -148,6 +148,7 @@ func analyse(w *world) *Analysis {
 	for _, r := range all {
 		r.Once = r.Once && !r.Multi && len(r.Parents) == 1
 	}
+	an.SentThenWritten, an.SendSummary = w.sentThenWritten(edges, l)
 	an.Notes = w.notes
 	return an
 }
